@@ -10,17 +10,89 @@
      exp_answer i x r   what service x answers to attempt r for THIS block (the fake service issues
                     "<hash>+<size><suffix>"; a request whose body is unreadable or mis-sized gets no response).
      total_stored   sum of X-Keep-Replicas-Stored (absent = 1) over the 200 answers in a log.
+     Discovery (model/KC_discover.v, shared with C12): dsvc = one keep_services item (uuid, host, port, ssl, type,
+                    read_only); load_roots l = the uuid -> URL maps r_local / r_writable / r_gateway and r_rps that
+                    loadKeepServers installs for list l; load_all st ls = a client given the lists ls one after the
+                    other; kept l = the items that survive "skip duplicate URLs"; current_list ls = last list.
+                    A case carries i_lists (all lists the client was given); g_svcs (gin_of i) is the last one.
    Every statement is for all digest functions, service lists, orders without repetition, oracles and schedules. *)
 From Coq Require Import Arith NArith List String Bool.
-From AV Require Import lib.Str model.C11_model model.C11_run proofs.C11_proofs proofs.C11_spec.
+From AV Require Import lib.Str model.KC_discover model.C11_model model.C11_run proofs.KC_discover_proofs proofs.C11_proofs
+  proofs.C11_spec proofs.C11_disc.
 Import ListNotations.
 Local Open Scope nat_scope.
 
 (* The oracle that judges the implementation is the specification: spec_b, evaluated on what the real
    KeepClient was observed to do, is true exactly when the Prop-level Spec (proofs/C11_spec.v) holds. *)
-Theorem C11_spec_b_reflects_Spec : forall c : case, spec_b c = true <-> Spec (gin_of (c_in c)) (c_obs c).
+Theorem C11_spec_b_reflects_Spec : forall c : case,
+  spec_b c = true <->
+  Spec (gin_of (c_in c)) (c_obs c) /\
+  (NoDup (map d_uuid (current_list (i_lists (c_in c)))) ->
+   RootsSpec (current_list (i_lists (c_in c))) (ob_local (c_obs c)) (ob_writable (c_obs c)) (ob_gateway (c_obs c))).
 Proof. exact spec_b_reflects. Qed.
 Print Assumptions C11_spec_b_reflects_Spec.
+
+(* ---- service discovery: which services a Put may write to, after any history of service lists ---- *)
+
+(* what RootsSpec (second half of the judgement above) says, and that roots_spec_b decides it *)
+Theorem C11_roots_spec_b_reflects : forall l local writable gateway,
+  roots_spec_b l local writable gateway = true <->
+  (NoDup (map d_uuid l) ->
+   (forall p, In p local <-> exists s, In s (kept l) /\ p = root_entry s) /\
+   (forall p, In p writable <-> exists s, In s (kept l) /\ d_ro s = false /\ p = root_entry s) /\
+   (forall s, In s (kept l) -> In (root_entry s) gateway) /\
+   (forall p, In p gateway -> exists s, In s l /\ p = root_entry s)).
+Proof. exact roots_spec_b_written_out. Qed.
+Print Assumptions C11_roots_spec_b_reflects.
+
+(* "skip duplicates": an item is kept iff no earlier item of the list has its URL *)
+Theorem C11_kept_is_first_per_url : forall l s,
+  In s (kept l) <-> exists pre post, l = (pre ++ s :: post)%list /\ (forall t, In t pre -> d_url t <> d_url s).
+Proof. exact kept_is_first_per_url. Qed.
+Print Assumptions C11_kept_is_first_per_url.
+
+(* the writable roots installed for a list are exactly its kept items that are not read-only, whatever their
+   service type; replicasPerService is 1 exactly when all of those are disks *)
+Theorem C11_writable_roots_exactly : forall l, NoDup (map d_uuid l) ->
+  forall u r, In (u, r) (r_writable (load_roots l)) <->
+              exists s, In s (kept l) /\ d_ro s = false /\ d_uuid s = u /\ d_url s = r.
+Proof. exact writable_roots_exactly. Qed.
+Print Assumptions C11_writable_roots_exactly.
+
+Theorem C11_replicas_per_service : forall l,
+  r_rps (load_roots l) = if forallb (fun s => d_ro s || is_disk s) (kept l) then 1 else 0.
+Proof. exact load_roots_rps. Qed.
+Print Assumptions C11_replicas_per_service.
+
+(* every load replaces the previous maps: after any sequence of lists (initial discovery, refreshes, repeated
+   LoadKeepServicesFromJSON) the client uses the maps of the LAST list, and they satisfy the specification *)
+Theorem C11_load_history_irrelevant : forall st ls l, k_roots (load_all st (ls ++ [l])) = load_roots l.
+Proof. exact load_history_irrelevant. Qed.
+Print Assumptions C11_load_history_irrelevant.
+
+Theorem C11_discovery_meets_roots_spec : forall st ls, ls <> [] ->
+  let r := k_roots (load_all st ls) in
+  roots_spec_b (current_list ls) (r_local r) (r_writable r) (r_gateway r) = true.
+Proof. exact load_all_meets_roots_spec_b. Qed.
+Print Assumptions C11_discovery_meets_roots_spec.
+
+(* the Put model (which identifies services by their index in the list) writes to exactly the discovered
+   writable roots, and uses the discovered replicasPerService *)
+Theorem C11_writable_ids_are_discovered_writable : forall l, NoDup (map d_uuid l) ->
+  forall x, In x (writable_ids (map k_of l)) <->
+            exists s, nth_error l x = Some s /\ In (root_entry s) (r_writable (load_roots l)).
+Proof. exact writable_ids_discovered. Qed.
+Print Assumptions C11_writable_ids_are_discovered_writable.
+
+Theorem C11_replicas_per_service_is_discovered : forall l, replicas_per_service (map k_of l) = r_rps (load_roots l).
+Proof. exact replicas_per_service_discovered. Qed.
+Print Assumptions C11_replicas_per_service_is_discovered.
+
+Theorem C11_put_uses_current_list : forall i : cin, i_lists i <> [] ->
+  k_roots (load_all kstate0 (i_lists i)) = load_roots (current_list (i_lists i)) /\
+  g_svcs (gin_of i) = map k_of (current_list (i_lists i)).
+Proof. exact put_uses_current_list. Qed.
+Print Assumptions C11_put_uses_current_list.
 
 (* ... and the model's own behaviour satisfies the same Spec for every input. *)
 Theorem C11_model_meets_Spec : forall i : gin, NoDup (g_order i) -> Spec i (obs_of_run i (run_g i)).
